@@ -82,6 +82,13 @@ def build_container(vals, kind):
         return range(vals[0], vals[0] + len(vals))
     if kind == "ndarray":
         return np.array(vals)
+    # one-shot iterables ("combos : dict_like[str, iterable]")
+    if kind == "iter":
+        return iter(list(vals))
+    if kind == "generator":
+        return (v for v in list(vals))
+    if kind == "map":
+        return map(lambda v: v, list(vals))
     return list(vals)
 
 
